@@ -76,6 +76,7 @@ struct ParserWorld : World {
 	void gen(Rng &r, Plan &p, int tier) override {
 		static const char *fmts[] = {"{*} =;!#", "{*} =;!# `", "[*] = ", "[*] = !", "[ ] = #", "[x] = #", "{x} =;#", "<x>:=,#", "{_} =;#", "{*}", "(*)<:>% \"", 0};
 		const char *f = fmts[r.below(11)];
+		if (r.chance(1, 25)) { static const char *shorts[] = {"", "{", "[", "{*", "[x", "{ "}; f = shorts[r.below(6)]; }
 		Bytes fb(f, f + strlen(f));
 		if (r.chance(1, 10)) { for (auto &b : fb) if (r.chance(1, 6)) b = (uint8_t) r.range(33, 126); }
 		uint8_t ss = fb.size() > 0 ? fb[0] : '{', se = fb.size() > 2 ? fb[2] : '}', as = fb.size() > 4 ? fb[4] : '=', oe = fb.size() > 5 ? fb[5] : 0, cm = fb.size() > 6 ? fb[6] : '#';
